@@ -210,9 +210,12 @@ def run_case(case, schedule, opts):
         viol.append({'property': 'C13', 'sig': sig, 'detail': detail})
 
     # (a) never executes before there is producer output it can consume
+    # ("output it can consume" = every same-stage producer it consumes from has produced something: an observer of
+    # two producers cannot consume while one of them has nothing yet)
     for li in launch_info:
-        if li['producer_has_output'] and not any(li['producer_has_output']):
-            V('a:launch-without-producer-output', li)
+        if li['producer_has_output'] and not all(li['producer_has_output']):
+            V('a:launch-without-producer-output' if not any(li['producer_has_output'])
+              else 'a:launch-while-some-producer-has-no-output', li)
             break
     controller = ctx.controller
     if controller is not None and stop is None:
